@@ -69,15 +69,28 @@ def reduced_programs(seed=0, sample=24):
 
 
 def quick_programs(seed=0, sample=40):
-    ps = singles() + dynamic_unions() + pairs(QUICK, skip_heavy_aligned=True)
+    """Quick tier of the relational check: every kind alone (both byte orders, both modes), every ordered pair of the quick
+    alphabet in both modes with the byte order alternating between pairs, seeded longer sequences."""
+    ps = singles() + dynamic_unions()
+    for i, p in enumerate(pairs(QUICK, endians=("<",), skip_heavy_aligned=True)):
+        ps.append(p if (i // 2) % 2 == 0 else Program(p.kinds, ">", p.align))
     light = [k for k in KINDS if k not in HEAVY and k not in REJECTED and k not in EOF_KINDS]
     ps += sample_programs(light, sample, 3, 4, seed)
     return dedupe(ps)
 
 
-def thorough_programs(seed=0, sample=400):
+def thorough_programs(seed=0, sample=300):
+    """Thorough tier: every kind alone, all ordered pairs of the quick alphabet (heavy kinds included, aligned too), every
+    kind paired with the cheap partners in both orders, seeded sequences of 3-6 kinds."""
     alpha = [k for k in KINDS if k not in REJECTED]
-    ps = singles() + dynamic_unions() + pairs(alpha)
+    ps = singles() + dynamic_unions() + pairs(QUICK)
+    for k in alpha:
+        for q in CHEAP_PARTNERS + ["char", "inner", "d_char"]:
+            for seq in ((k, q), (q, k)):
+                if valid_sequence(seq) and not (k in HEAVY and q in HEAVY):
+                    for e in ("<", ">"):
+                        for al in (False, True):
+                            ps.append(Program(list(seq), e, al))
     light = [k for k in KINDS if k not in HEAVY and k not in REJECTED and k not in EOF_KINDS]
     ps += sample_programs(light, sample, 3, 6, seed)
     return dedupe(ps)
